@@ -469,7 +469,7 @@ def main(argv):
     # inductive per-class steps of get_r / get_w on the real method bodies (Engine A)
     try:
         from checks import C16smt
-        nind = C16smt.ob_smt(run)
+        nind = C16smt.ob_smt(run) + C16smt.ob_match(run)
     except Exception as ex:
         import traceback
         nind = 0
@@ -480,7 +480,7 @@ def main(argv):
                 'non-interference for all valuations; get_w, get_expr_ids compared structurally; matching: %d patterns per width x bindings built by substitution (instances must match '
                 'with exactly that binding), a second match with other bindings (history), and single-point mutations classified by an independent reference matcher' % len(patterns(32)))
     run.explanation = ('get_r/get_w: one inductive step per node class proved on the real method body by Engine A (children are opaque objects answered by the induction hypothesis; unbounded depth; '
-                       'child classes by rotation, arity of ExprOp/ExprCompose up to 4) - %d obligations; plus run-time twins of the contracts of get_r/get_w/get_expr_ids/MatchExpr and dependency clauses by z3 per tree' % nind)
+                       'child classes by rotation, arity of ExprOp/ExprCompose up to 4) and the recursion scheme of MatchExpr per class of the matched node (which child pairs are matched, with which table, what is returned) - %d obligations; plus run-time twins of the contracts of get_r/get_w/get_expr_ids/MatchExpr and dependency clauses by z3 per tree' % nind)
     run.samples = [dstr(d) for d in trees[:3] + trees[-3:]]
     run.trust('z3; liftvc/den.py; the reference matcher is_instance in checks/C16.py')
     return run.finish()
